@@ -197,6 +197,8 @@ func (fc *FuncCtx) instr(in ssa.Instruction, st *State, reach string) *State {
 		case *types.Map:
 			mh, mv := eng.mapHeaps(t)
 			has := fmt.Sprintf("(select (select %s %s) %s)", st.get(mh), base.T, idx.T)
+			// a nil map holds no key (reading it is allowed and yields the zero value)
+			q.assume(fmt.Sprintf("(=> (= %s 0) (not %s))", base.T, has))
 			zero := eng.sorts.zero(t.Elem())
 			val := fmt.Sprintf("(ite %s (select (select %s %s) %s) %s)", has, st.get(mv), base.T, idx.T, zero)
 			if x.CommaOk {
@@ -274,12 +276,23 @@ func (fc *FuncCtx) instr(in ssa.Instruction, st *State, reach string) *State {
 		fc.defers = append(fc.defers, rec)
 		return st
 	case *ssa.RunDefers:
+		cur := reach
 		for i := len(fc.defers) - 1; i >= 0; i-- {
 			d := fc.defers[i]
-			g := and(reach, d.guard)
+			g := and(cur, d.guard)
+			fc.curReach = g
 			after := fc.call(nil, d.call, st, g, d.instr)
+			// control continues after the deferred call if the call was not registered on this path
+			// (guard false) or if it was and the call returns (an inlined literal narrows curReach)
+			ret := fc.curReach
+			if ret == g {
+				// the call does not narrow reachability
+			} else {
+				cur = fc.q.define(fmt.Sprintf("%sreach_defer_%d", fc.pfx, fc.ordinal("defer-reach")), "Bool", fmt.Sprintf("(or (and %s (not %s)) %s)", cur, d.guard, ret))
+			}
 			st = fc.newState(stEdge{d.guard, after}, stEdge{"true", st})
 		}
+		fc.curReach = cur
 		return st
 	case *ssa.Return:
 		var vals []TV
